@@ -382,6 +382,7 @@ type simRoundResult struct {
 	Fired    []string
 	Acks     []simAck
 	Failed   int // waiters that got an error
+	FailedEntries []*simEntry // their entries (a client typically submits them again)
 	Pool     *pool
 	PoolSize int
 	Ops      []simOp
@@ -419,6 +420,9 @@ func (s *simSys) resolve(in *simInst, wt *simWaiter, le *sunlight.LogEntry, err 
 	wt.done = true
 	if err != nil {
 		if res != nil {
+			if wt.Entry != nil && len(res.FailedEntries) < 8 {
+				res.FailedEntries = append(res.FailedEntries, wt.Entry)
+			}
 			res.Failed++
 		}
 		return
